@@ -171,6 +171,17 @@ def cmdStrategy (name cfg b p r a verdicts clock : String) : String :=
     | _ => "bad-op"
   | _, _, _ => "bad-op"
 
+def cmdSummary (name cfg b p r a verdicts clock : String) : String :=
+  match decCfg cfg, decTestcase b p r a, decClock clock with
+  | some cfg, some t, some clk =>
+    let o := decOracle verdicts
+    match name with
+    | "minimize" =>
+      let it := Strat.minimize cfg o clk t
+      s!"best={encList it.best.parts} n={it.nTests}"
+    | _ => "bad-op"
+  | _, _, _ => "bad-op"
+
 def cmdPow2 (s : String) : String :=
   match s.toInt? with
   | some i => if Util.isPowerOfTwo i then "1" else "0"
@@ -186,6 +197,7 @@ def step (line : String) : String :=
   | ["rmslice", p, r, a, b] => cmdRmslice p r a b
   | ["world", b, p, r, a, disk, runs] => cmdWorld b p r a disk runs
   | ["strategy", name, cfg, b, p, r, a, verdicts, clock] => cmdStrategy name cfg b p r a verdicts clock
+  | ["summary", name, cfg, b, p, r, a, verdicts, clock] => cmdSummary name cfg b p r a verdicts clock
   | ["pow2", i] => cmdPow2 i
   | ["lp2", n] => (n.toNat?.map (fun n => toString (Util.lp2 n))).getD "bad-op"
   | ["divup", a, b] =>
